@@ -29,6 +29,10 @@ def yshape(kind, x):
         return 0.5 * x * x - 1.2 * x + 3.0
     if kind == 2:
         return math.sin(2.3 * x) * (1 + 0.3 * x) + 0.1
+    if kind == 4:
+        return 1.6e-19 * (math.exp(-1.3 * x) - 0.4 / (1.0 + x))        # SI-scale values (J): tiny but meaningful
+    if kind == 5:
+        return 3.0e12 * (0.5 * x * x - 1.2 * x + 3.0)                  # large values
     return -1.5 + 4.0 / (1.0 + x) - 0.2 * x
 
 
@@ -37,13 +41,13 @@ def cases(tier):
     k = 0
     for n in (4, 5, 6, 7):
         for sub in itertools.combinations(range(9), n):
-            for ys in range(4):
+            for ys in range(6):
                 k += 1
                 allreps = ['xy_split', 'xy', 'xy_cont', 'class', 'xy_cont3', 'xy_cont5']
                 reps = allreps if tier != 'quick' else [allreps[k % 6], allreps[(k + 3) % 6]]
                 for rep in reps:
                     out.append(dict(kind='table', x=[XL[i] for i in sub], ys=ys, rep=rep))
-    for npt in (50, 200):
+    for npt in (50, 200, 257, 1000):
         x, v = [], 0.1
         for i in range(npt):
             v += 0.02 + 0.03 * ((i * 7) % 5)
@@ -112,7 +116,7 @@ def run_table(case):
     build_table([v + 0.25 for v in x], y0, case['rep'] if case['rep'] != 'class' else 'xy')
     f = build_table(x, y, case['rep'])
     g = build_table(x, y, 'xy' if case['rep'] != 'xy' else 'xy_split')
-    scale = max(abs(v) for v in y) + 1.0
+    scale = max(abs(v) for v in y) * (1.0 + 1e-3) + (1.0 if case['ys'] < 4 else 0.0)
     n = 0
     for xi, yi in zip(x, y):
         n += 1
